@@ -419,6 +419,9 @@ func (in *Interp) doAssert(id string, c Bool, finding string, pred Bool) {
 		case Sat:
 			v := Violation{Harness: in.cfg.Harness, ID: id, Kind: "assert-fail", Pos: in.posString(), Finding: finding,
 				Tape: in.buildTape(vals), Path: append([]int{}, in.decisions...)}
+			if in.res.lastPanic != nil {
+				v.Msg = "last caught panic: " + in.res.lastPanic.Msg + " at " + in.res.lastPanic.Pos
+			}
 			if isKnown {
 				in.res.KnownHits = append(in.res.KnownHits, v)
 			} else {
